@@ -62,7 +62,7 @@ PROPS = {
         "level": "exploration",
         "design_ref": "§6 C03",
         "level_text": L_EXPL + "; the 12 dot-segment spellings at every position of paths up to length 3 are enumerated exhaustively",
-        "level_note": "trusts the own percent-decoder/normaliser; in-process paths are ASCII (non-ASCII bytes always percent-encoded), raw high bytes only in the live engine",
+        "level_note": "trusts the own percent-decoder/normaliser; in-process paths are ASCII (non-ASCII bytes always percent-encoded), raw high bytes only in the live engine; c03-h2 sends `:path` values as given (also without a leading slash) with the h2 crate's client",
         "technique": "runtime monitoring: own path normaliser as oracle + metamorphic spelling equivalence + exhaustive dot-segment enumeration against the real router",
         "engines": [
             {"name": "c03-dots"},
@@ -78,7 +78,7 @@ PROPS = {
         "level": "exploration",
         "design_ref": "§6 C05",
         "level_text": L_EXPL + "; membership and pairwise conflict are enumerated exhaustively over the 14-version universe U (134 ranges, 17 956 ordered pairs), random versions/ranges on top",
-        "level_note": "trusts the own semver-precedence comparator and interval algebra (unit-tested against the semver spec's example chain); exhaustive only over U",
+        "level_note": "trusts the own semver-precedence comparator and interval algebra (unit-tested against the semver spec's example chain); exhaustive only over U; c05-router adds multi-route tables (wildcard children beside exact routes), route-vs-wildcard-child conflicts are checked in both registration orders",
         "technique": "runtime monitoring: exhaustive + random comparison of real routing/OpenAPI membership and registration conflicts with an own semver/range model; live header-policy probes",
         "engines": [
             {"name": "c05-exhaustive"},
@@ -93,7 +93,7 @@ PROPS = {
         "level": "exploration",
         "design_ref": "§6 C09",
         "level_text": L_EXPL + "; every response of a concurrent, pipelined, arbitrarily framed workload is compared with the value the client encoded; isolation is judged on uid carried in header, path, query and body plus peer address; the evidence reports the handler concurrency actually observed",
-        "level_note": "schedules are those the stress run produced (worker counts 1/2/4/16, seeded handler sleeps); HTTP/2 multiplexing is not driven; NaN/infinite floats and multipart epilogues are outside the generated domain",
+        "level_note": "schedules are those the stress run produced (worker counts 1/2/4/16, seeded handler sleeps); HTTP/2 is driven with hyper's h2 client over cleartext and with tokio-rustls + h2 over TLS/ALPN (no HTTP/2 push, no CONNECT); NaN/infinite floats and multipart epilogues are outside the generated domain",
         "technique": "runtime monitoring: typed echo handlers on a real server + generated values x legal encodings x framings x pipelining, compared at the client boundary; event-log sweep for concurrency and exactly-one entry per request",
         "engines": [
             {"name": "c09-echo"},
@@ -119,7 +119,7 @@ PROPS = {
         "level": "exploration",
         "design_ref": "§6 C11",
         "level_text": L_EXPL + "; for each (server default x endpoint override x extractor x body length around/far beyond the limit x framing) the response is compared with the limit model and the byte counts logged by the handlers are bounded offline",
-        "level_note": "the limit model is limit = override.unwrap_or(default); 'bytes observed by a handler' are H_BYTES events written by harness handlers after every chunk (streaming / multipart) or once (buffered); HTTP/2 DATA framing is not driven; multipart bodies are sent without epilogue",
+        "level_note": "the limit model is limit = override.unwrap_or(default); 'bytes observed by a handler' are H_BYTES events written by harness handlers after every chunk (streaming / multipart) or once (buffered); HTTP/2 DATA framing is not driven by this check (C09 and C18 drive it); multipart bodies are sent without epilogue",
         "technique": "runtime monitoring: boundary-value body lengths x framings against real servers, response oracle + offline conservation check (max bytes seen by handler <= limit) over the event log",
         "engines": [
             {"name": "c11-limits"},
@@ -216,7 +216,7 @@ PROPS = {
         "level": "exploration",
         "design_ref": "§6 C15",
         "level_text": L_EXPL + "; 3.6*10^4 (quick) / 7.3*10^4 (thorough) complete scans, first page to last token, through live paginated endpoints; exhaustive in N for 0..300 x 11 limits x 10 orders",
-        "level_note": "the collection is a pure function of N and the model sorts it independently of the handler's BTreeMap ranges; sizes reach 25 000; limits cover absent and 1..2^32-1, including 9999/10000/10001 around the clamp; the endpoints are the examples' code and the parts under test are PaginationParams, page_limit, ResultsPage::new and the token round trip",
+        "level_note": "the collection is a pure function of N and the model sorts it independently of the handler's BTreeMap ranges; sizes reach 25 000; limits cover absent and 1..2^32-1, including 9999/10000/10001 around the clamp; the endpoints are the examples' code and the parts under test are PaginationParams, page_limit, ResultsPage::new and the token round trip; c15-tls scans 200 kB pages over HTTPS with a slow reader (small receive buffer and MSS set before connect)",
         "technique": "runtime monitoring: pagination scan reference model (order, exactly-once, page <= min(limit, 10000)/100, token iff non-empty, <= ceil(N/limit)+1 requests) over a raw HTTP client, with conservation check pages fetched = pages served",
         "engines": [
             {"name": "c15-scan", "bin": "vmon_wsp", "package": "wsp"},
@@ -228,7 +228,7 @@ PROPS = {
         "level": "exploration",
         "design_ref": "§6 C16",
         "level_text": L_EXPL + "; history monitor over generated disconnect schedules: 480 (quick) / 30 000 (thorough) scenarios, both task modes, victims leaving by close or RST at five phases; ~200 distinct orderings of (ENTER, steps, DISCONNECT, DONE/DROP) per (mode, phase, style), up to 100 handlers in flight",
-        "level_note": "schedules are those the stress runs produced (tokio workers 1/2/4/16, optional CPU hogs, 1-128 concurrent raw-socket clients); cancellation is decided as bounded progress: gate kept shut, 10 s watchdog, then the gate is opened and only a subsequent H_DONE is a violation; HTTP/1.1 requests pipelined behind a panicking one are counted, not judged; h2 is not exercised",
+        "level_note": "schedules are those the stress runs produced (tokio workers 1/2/4/16, optional CPU hogs, 1-128 concurrent raw-socket clients); cancellation is decided as bounded progress: gate kept shut, 10 s watchdog, then the gate is opened and only a subsequent H_DONE is a violation; HTTP/1.1 requests pipelined behind a panicking one are counted, not judged; HTTP/2 streams (c16-h2: connection drop / RST_STREAM with four reasons) and TLS clients leaving at every handshake stage (c16-tls) are judged with the same history rules; h2 over TLS is not driven here",
         "technique": "runtime history monitor: append-only seq-ordered event log written by gated / stepping / 8 MB-response / panicking harness handlers and raw-socket clients on real servers; offline oracle for exactly-once entry, exactly-one ending, no progress after cancel, detached completion, delivery to clients that stay, panic isolation",
         "engines": [
             {"name": "c16-disconnect", "bin": "vmon_hist", "package": "hist"},
@@ -243,7 +243,7 @@ PROPS = {
         "level": "exploration",
         "design_ref": "§6 C17",
         "level_text": L_EXPL + "; history monitor over 640 (quick) / 10 000 (thorough) shutdown scenarios: close() called settled or racing against started handlers, idle and half-sent connections, departed clients of detached handlers, late arrivals, a panicking handler and 0-6 extra waiters; 43-69 distinct orderings of (ENTER, CLOSE_CALL, GATE, DISCONNECT, DONE/DROP, CLOSE_RET) per population",
-        "level_note": "liveness is checked as bounded progress: a 30 s watchdog at logical quiescence, then three re-runs alone, only 3/3 hangs is a violation; the port clause counts only if the old instance answers or a LISTEN socket on the old port still belongs to this process while no newer harness server bound it; waiters are created before close() (it consumes the server)",
+        "level_note": "liveness is checked as bounded progress: a 30 s watchdog at logical quiescence, then three re-runs alone, only 3/3 hangs is a violation; the port clause counts only if the old instance answers or a LISTEN socket on the old port still belongs to this process while no newer harness server bound it; waiters are created before close() (it consumes the server); c17-h2 repeats the rules with multiplexed HTTP/2 streams whose client stays and keeps reading, c17-drop with shutdown requested by dropping the handle (waiters still pending 40 s after every handler ended and every client left = violation); how long a SILENT peer may delay shutdown is not judged (DESIGN §7 O2)",
         "technique": "runtime history monitor: server.close() and wait_for_shutdown() driven on the server's own runtime with call/return events logged; oracle over seq order for response completeness, close-after-every-handler-end, equal waiter results, refused port, deadlock by the re-run rule",
         "engines": [
             {"name": "c17-shutdown", "bin": "vmon_hist", "package": "hist"},
@@ -258,7 +258,7 @@ PROPS = {
         "level": "exploration",
         "design_ref": "§6 C20",
         "level_text": L_EXPL + "; ~1.9*10^4 (quick) / 2.4*10^5 (thorough) real handshakes against live channel endpoints; the 101, the accept digest (own SHA-1 and base64), the handler entry and every post-upgrade byte in both directions are checked",
-        "level_note": "8x8 legal list spellings plus HTAB and multi-line, 15 missing/wrong subsets, 6 key classes, 13 flows, 7 payload size classes, up to 2 560 simultaneous upgrades; wall-clock never decides: a stalled stream is resolved by half-closing and judging the end of stream, otherwise inconclusive; HTTP/1.0, duplicate Version/Key lines and SP-only list separators are deliberately unclassed",
+        "level_note": "8x8 legal list spellings plus HTAB and multi-line, 15 missing/wrong subsets, 6 key classes, 13 flows, 7 payload size classes, up to 2 560 simultaneous upgrades; wall-clock never decides: a stalled stream is resolved by half-closing and judging the end of stream, otherwise inconclusive; HTTP/1.0, duplicate Version/Key lines and SP-only list separators are deliberately unclassed; an unanswered complete handshake is a violation only when a control handshake on a fresh connection is answered meanwhile; over TLS additionally server bursts, a stalled writer that flushes, half-close, and a silent peer on the port during the upgrade",
         "technique": "runtime monitoring: RFC 6455 / RFC 9110 list-syntax reference model with independent SHA-1/base64 plus history monitor (CH_ENTER/CH_EOF event log) over a raw-socket client and real servers",
         "engines": [
             {"name": "c20-handshake", "bin": "vmon_wsp", "package": "wsp"},
